@@ -356,6 +356,37 @@ class PipelineConnection(BaseNetQASMConnection):
             callback()
 
 
+# ---- the same backend with generator-form hooks ---------------------------------------------------------------------------
+# A simulator backend (SquidASM) implements the executor's hooks as generators that yield to its event loop; the base executor
+# accepts both forms at every call site. Every other MonitoredExecutor that is built answers its hooks in generator form: whatever
+# a check observes must not depend on the form.
+_HOOKS = ("_do_single_qubit_instr", "_do_single_qubit_rotation", "_do_controlled_qubit_rotation", "_do_two_qubit_instr", "_do_meas",
+          "_clear_phys_qubit_in_memory")
+_built = {"n": 0}
+
+
+def _as_generator(plain):
+    def hook(*a, **kw):
+        yield None          # (an event of the backend's own loop: ignored by the drivers)
+        return plain(*a, **kw)
+    return hook
+
+
+_orig_init = MonitoredExecutor.__init__
+
+
+def _init_with_hook_form(self, *a, **kw):
+    _orig_init(self, *a, **kw)
+    _built["n"] += 1
+    self.generator_hooks = _built["n"] % 2 == 0
+    if self.generator_hooks:
+        for name in _HOOKS:
+            setattr(self, name, _as_generator(getattr(self, name)))
+
+
+MonitoredExecutor.__init__ = _init_with_hook_form
+
+
 def make_node(name="alice", node_id=0, flavour=None, script=None, step_limit=20000, stack=None):
     ctrl = MonitoredController(name=name, flavour=flavour, node_id=node_id, script=script, step_limit=step_limit)
     if stack is not None:
